@@ -2,7 +2,10 @@
 
 package verifhook
 
-import "sync/atomic"
+import (
+	"sync/atomic"
+	"time"
+)
 
 // Enabled reports whether the instrumentation is compiled in.
 const Enabled = true
@@ -21,6 +24,8 @@ type Hooks struct {
 	// LockNote after it was acquired (acquired = true) and before it is released (acquired = false).
 	LockYield func(m any, name string, write bool)
 	LockNote  func(m any, write bool, acquired bool)
+	// ClockOffset is added to every reading of the wall clock (clock.RealClock.Now): clock steps and skew.
+	ClockOffset func() time.Duration
 }
 
 var installed atomic.Pointer[Hooks]
@@ -80,4 +85,11 @@ func Evict(db int, key string, memUsed int64, limit uint64) {
 	if h := installed.Load(); h != nil && h.Evict != nil {
 		h.Evict(db, key, memUsed, limit)
 	}
+}
+
+func ClockOffset() time.Duration {
+	if h := installed.Load(); h != nil && h.ClockOffset != nil {
+		return h.ClockOffset()
+	}
+	return 0
 }
